@@ -28,6 +28,13 @@ Theorem C01_intention_mono_correct : forall b t A base,
 Proof. exact intention_mono_correct. Qed.
 Print Assumptions C01_intention_mono_correct.
 
+(* the same for listings with repeats, as long as the length shortcut does not fire *)
+Theorem C01_intention_mono_listing_correct : forall b t A base,
+  wf t -> in_range (height t) A -> (NoDup A \/ length A <> height t) -> opt_in_range (width t) base ->
+  intention_monotone_i b t A base = int_mono_spec t A (default (all_attrs t) base).
+Proof. exact intention_mono_correct_listing. Qed.
+Print Assumptions C01_intention_mono_listing_correct.
+
 Theorem C01_extension_named_ok : forall b t onames anames ai bi,
   wf t -> NoDup onames -> NoDup anames ->
   length onames = height t -> length anames = width t ->
